@@ -49,8 +49,19 @@ func TestProp_Generate(t *testing.T) {
 		d := caseDesc{}
 		d.NodeIdLoader = rapid.IntRange(0, 3).Draw(t, "nodeIdLoader") > 0
 		d.Wrapper = rapid.Bool().Draw(t, "wrapper")
-		w := vkit.NewWorld(vkit.WorldConfig{StorageWrapper: d.Wrapper, NodeIdLoader: d.NodeIdLoader})
+		// a third of the node-ID worlds use the repository's own store-once test back end
+		// for the lookup (its record order is that of a Go map; the oracle does not
+		// depend on the order)
+		native := d.NodeIdLoader && rapid.IntRange(0, 2).Draw(t, "nativeStoreOnceLookup") == 0
+		backend := vkit.Inmem
+		if native {
+			backend = vkit.StoreOnce
+		}
+		w := vkit.NewWorld(vkit.WorldConfig{Backend: backend, StorageWrapper: d.Wrapper, NodeIdLoader: d.NodeIdLoader})
 		defer w.Close()
+		if native {
+			w.NodeID.Native = true
+		}
 
 		// actors: r0..r3 may be registered under node ID N1, o under N2, u unregistered
 		names := []string{"r0", "r1", "r2", "r3", "o", "u"}
